@@ -132,8 +132,9 @@ class Graph:
         order = []
 
         def make(name, depth, avail):
-            lines = ["#pragma once"]
             k = len(self.files)
+            # (gcc's #pragma once treats two files with the same content and time stamp as one file: keep every file unique)
+            lines = ["#pragma once", "// file %d" % k]
             self.files[name] = None
             kids = [o for o in avail if o not in self.files]
             rng.shuffle(kids)
